@@ -22,6 +22,9 @@ M = [
  ("C06-view-grad-cache-not-validated", "C06", "src/mygrad/tensor_base.py",
   "        if self._view_grad is not None and self._view_grad.base is self._base._grad:", "        if self._view_grad is not None and self._base._grad is not None:",
   "cached view gradient returned although the base got a new gradient array"),
+ ("C06-identity-view-grad-fix-reverted", "C06", "src/mygrad/tensor_base.py",
+  "            or self._view_grad is self._base._grad\n", "",
+  "the cached gradient of a view whose op returned its input array itself is rejected after backward (fix 14 reverted)"),
  ("C06-layout-fix-reverted", "C06", "src/mygrad/operation_base.py",
   "                    or backed_grad.strides != var.data.strides\n", "",
   "the stored gradient no longer mirrors the layout of the data (the original defect)"),
